@@ -207,11 +207,65 @@ fn c15(variant: usize) -> i32 {
     0
 }
 
+/// C15, deep variant: four threads walk a text whose function bodies are nested `depth` levels deep,
+/// truly concurrently; anything that couples the calls through shared state while they are deep
+/// inside the recursive walker shows as a difference from the sequential results.
+fn c15deep(depth: usize) -> i32 {
+    let mut text = String::from("pragma solidity 0.8.16;\n\ncontract Deep {\n    uint256 x;\n    function f(uint256 a, uint256 b, uint256 c) public {\n");
+    for d in 0..depth {
+        text.push_str(&format!("        if (a > {}) {{\n", d));
+    }
+    text.push_str("            x = a / b * c + a * 2;\n");
+    for _ in 0..depth {
+        text.push_str("        }\n");
+    }
+    text.push_str("    }\n}\n");
+    let calls = [
+        Call::VN("divide_before_multiply"),
+        Call::ON("shift_math"),
+        Call::ON("solidity_math"),
+        Call::ON("sstore"),
+    ];
+    let want: Vec<Vec<i32>> = calls.iter().map(|c| do_call(c, &text, 0)).collect();
+    if want.iter().any(|w| w.is_empty()) {
+        println!("MISMATCH c15deep: a canary pattern has no finding on the nested text ({:?})", want);
+        return 1;
+    }
+    let text = std::sync::Arc::new(text);
+    let mut handles = vec![];
+    for c in calls.iter().cloned() {
+        let t = text.clone();
+        handles.push(
+            std::thread::Builder::new()
+                .stack_size(256 << 20)
+                .spawn(move || do_call(&c, &t, 0))
+                .expect("spawn"),
+        );
+    }
+    let mut got = vec![];
+    for h in handles {
+        match h.join() {
+            Ok(v) => got.push(v),
+            Err(_) => {
+                println!("MISMATCH c15deep: a concurrent call panicked");
+                return 1;
+            }
+        }
+    }
+    if got != want {
+        println!("MISMATCH c15deep depth {}: concurrent {:?} vs sequential {:?}", depth, got, want);
+        return 1;
+    }
+    println!("RESULT c15deep {:016x} depth={}", fnv(&format!("{:?}", want)), depth);
+    0
+}
+
 fn main() {
     let args: Vec<String> = std::env::args().collect();
     let code = match args.get(1).map(|s| s.as_str()) {
         Some("c13") => c13(args.get(2).and_then(|s| s.parse().ok()).unwrap_or(0)),
         Some("c15") => c15(args.get(2).and_then(|s| s.parse().ok()).unwrap_or(0)),
+        Some("c15deep") => c15deep(args.get(2).and_then(|s| s.parse().ok()).unwrap_or(14)),
         _ => {
             eprintln!("usage: sim-miri c13 | c15 <variant>");
             2
